@@ -89,7 +89,9 @@ TNote ==   \* harness markers without meaning for the abstract tracer
 
 (* quiescence: every goroutine is durably blocked (or, in the real-time drivers, the harness waited
    for everything it could expect).
-   - no call is outstanding (Trace/Close never wait for the writer)                       X08.c
+   - no Trace call is outstanding (Trace never waits for the writer); neither is a Close call
+     in the code as found, but a Close that has taken effect may wait for the writer to
+     finish (that would repair finding X08-F1), never beyond the writer's exit             X08.c
    - an unwritten accepted event exists only while the harness gate holds the writer,
      and then the writer IS at the gate with that event in hand                           X08.d
    - the shared buffer holds exactly the accepted events the writer has not taken         X08.a/g
@@ -97,7 +99,8 @@ TNote ==   \* harness markers without meaning for the abstract tracer
    - the underlying writer is not closed before Close                                     X08.e *)
 TQuiet ==
     /\ More /\ E.e = "quiet"
-    /\ E.blocked = <<>> /\ DOMAIN ops = {}
+    /\ Range(E.blocked) = DOMAIN ops
+    /\ \A id \in DOMAIN ops : ops[id].op = "close" /\ ops[id].st = "lin" /\ ~fileClosed /\ written < Len(accepted)
     /\ written < Len(accepted) => (gateOn /\ E.wpos = "gate" /\ written < taken)
     /\ E.buf = Len(accepted) - taken
     /\ lossy => E.buf <= bound + 1
